@@ -240,6 +240,11 @@ func init() {
 			l := int(m.concInt(a[1], "len"))
 			return m.symStr(n, l, m.concStr(a[2]))
 		},
+		"verifHashKey": func(m *Machine, _ *frame, _ token.Pos, _ *ssa.Function, a []Value) Value {
+			n := m.nameArg(a[0])
+			l := int(m.concInt(a[1], "len"))
+			return m.symStr(n, l, m.concStr(a[2]))
+		},
 		"verifAssume": func(m *Machine, _ *frame, _ token.Pos, _ *ssa.Function, a []Value) Value {
 			m.assume(a[0].(*sym.Term))
 			return nil
